@@ -310,6 +310,45 @@ func init() {
 					prog := []model.Stmt{model.Assign{Name: "z", E: bc.val}, model.If{Conds: []model.Expr{model.Lit{V: model.Bool(true)}}, Bodies: [][]model.Stmt{inner}}, model.Text{S: "|"}, model.Print{E: model.Var{Name: "z"}}}
 					judgeScope(c, prog, nil, "assigned-in-block")
 				}})
+			// operators read their operands: after -z, !z, z + z ... inside a block, a loop or on an element, the variable holds
+			// what it was given (only an assignment or ++/-- changes a variable)
+			{
+				z := model.Var{Name: "z"}
+				vals := []model.Value{model.Int(3), model.Float(1.5), model.Float(-0.25), model.Bool(true), model.Str("s"), model.Int(-9223372036854775807)}
+				ops := []func(x model.Expr) model.Expr{
+					func(x model.Expr) model.Expr { return model.Unary{Op: "-", X: x} },
+					func(x model.Expr) model.Expr { return model.Unary{Op: "!", X: x} },
+					func(x model.Expr) model.Expr { return model.Binary{Op: "+", L: x, R: x} },
+					func(x model.Expr) model.Expr { return model.Binary{Op: "*", L: model.Unary{Op: "-", X: x}, R: x} },
+					func(x model.Expr) model.Expr { return model.Binary{Op: "==", L: model.Unary{Op: "-", X: x}, R: x} },
+					func(x model.Expr) model.Expr { return model.Ternary{C: x, A: model.Unary{Op: "-", X: x}, B: x} },
+					func(x model.Expr) model.Expr { return model.Unary{Op: "-", X: model.Paren{X: model.Unary{Op: "-", X: x}}} },
+				}
+				secs = append(secs, core.Section{Name: "operators-leave-operands-alone", Exhaustive: true, N: len(vals) * len(ops) * 4,
+					Run: func(c *core.Ctx, i int) {
+						place := i % 4
+						i /= 4
+						op := ops[i%len(ops)]
+						v := vals[i/len(ops)]
+						var prog []model.Stmt
+						data := map[string]model.Value{}
+						switch place {
+						case 0: // in a block, result bound to another name
+							prog = []model.Stmt{model.Assign{Name: "z", E: literalOf(v)}, model.If{Conds: []model.Expr{model.Lit{V: model.Bool(true)}}, Bodies: [][]model.Stmt{{model.Assign{Name: "g", E: op(z)}, model.Print{E: model.Var{Name: "g"}}}}}, model.Text{S: "|"}, model.Print{E: z}}
+						case 1: // printed in every pass of a loop
+							prog = []model.Stmt{model.Assign{Name: "z", E: literalOf(v)}, model.Each{Var: "p", Arr: intArr(1, 2, 3), Body: []model.Stmt{model.Print{E: op(z)}, model.Text{S: ","}}}, model.Text{S: "|"}, model.Print{E: z}}
+						case 2: // on an element of an array and a value of an object
+							el := model.Index{X: model.Var{Name: "a"}, I: model.Lit{V: model.Int(0)}}
+							prog = []model.Stmt{model.Assign{Name: "a", E: model.ArrLit{Elems: []model.Expr{literalOf(v)}}}, model.Assign{Name: "o", E: model.ObjLit{Keys: []string{"k"}, Vals: []model.Expr{literalOf(v)}}},
+								model.Print{E: op(el)}, model.Print{E: op(model.Dot{X: model.Var{Name: "o"}, Name: "k"})}, model.Text{S: "|"}, model.Print{E: el}, model.Text{S: "|"}, model.Print{E: model.Dot{X: model.Var{Name: "o"}, Name: "k"}}}
+						default: // on a value of the data, read through a loop variable
+							data["z"] = v
+							data["zs"] = model.Arr(v, v)
+							prog = []model.Stmt{model.Each{Var: "w", Arr: model.Var{Name: "zs"}, Body: []model.Stmt{model.Print{E: op(model.Var{Name: "w"})}, model.Print{E: op(z)}, model.Text{S: ","}}}, model.Text{S: "|"}, model.Print{E: z}, model.Text{S: "|"}, model.Print{E: model.Var{Name: "zs"}}}
+						}
+						judgeScope(c, prog, data, "operators-leave-operands")
+					}})
+			}
 			// one loaded Template, pages rendered one after the other without data: a name assigned by one render is not
 			// visible to (and not typed for) the next
 			secs = append(secs, core.Section{Name: "data-less-renders-of-one-template", Exhaustive: true, N: 3,
